@@ -186,24 +186,28 @@ Theorem C05_separation :
     = 1 - sep_h (d2r (red360 (D1 + - D2))) (d2r D1) (d2r D2) (d2r (red360 (A1 + - A2)))).
 Proof. exact (conj angsep_cos (conj angsep_sym sep_hc_value)). Qed.
 
-(* relative position angle.  The code wraps alpha1 - alpha2 to [-180,180] degrees (pa_wrap),
-   and computes atan2 (cos d1 sin da, x) with x = sin (d1-d2) + 2 sin d2 cos d1 sin^2 (da/2)
-   if cos da >= 0 and x = sin (d1+d2) - 2 sin d2 cos d1 cos^2 (da/2) otherwise (pa_deg is
-   exactly that expression).  Both forms of x are u1 . north2; the result equals Meeus'
-   quotient form atan2 (sin da, cos d2 tan d1 - sin d2 cos da) when cos d1 > 0; it negates
-   when the right-ascension difference changes sign. *)
+(* relative position angle.  The code forms da = a1 - a2 with one operand shifted by a whole
+   turn first when |a1 - a2| > 180 (pa_w), removes whole turns by rounding (pa_da), and
+   computes atan2 (cos d1 sin da, x) with x = sin (d1-d2) + 2 sin d2 cos d1 sin^2 (da/2) if
+   cos da >= 0 and x = sin (d1+d2) - 2 sin d2 cos d1 cos^2 (da/2) otherwise (pa_deg is exactly
+   that expression).  For canonical right ascensions da is in [-180,180] and the rounding term
+   is 0; da is congruent to a1 - a2 mod 360; both forms of x are u1 . north2; the result
+   equals Meeus' quotient form atan2 (sin da, cos d2 tan d1 - sin d2 cos da) when cos d1 > 0;
+   it negates when the right-ascension difference changes sign. *)
 Theorem C05_position_angle :
   (forall a1 d1 a2 d2,
     -360 < a1 < 360 -> -360 < a2 < 360 -> -360 < d1 < 360 -> -360 < d2 < 360 ->
     f_relative_position_angle Rops (ang a1) (ang d1) (ang a2) (ang d2) = ang (pa_deg a1 d1 a2 d2)) /\
   (forall a1 d1 a2 d2,
     pa_deg a1 d1 a2 d2 =
-    r2d (atan2 (cos (d2r d1) * sin (d2r (pa_wrap (red360 (a1 + - a2)))))
+    r2d (atan2 (cos (d2r d1) * sin (d2r (pa_da (pa_w a1 a2))))
                (pa_x (d2r (red360 (d1 + - d2))) (d2r (red360 (d1 + d2)))
-                     (d2r (pa_wrap (red360 (a1 + - a2)))) (d2r d1) (d2r d2)))) /\
-  (forall D, -360 < D < 360 -> -180 <= pa_wrap D <= 180 /\ exists k : Z, pa_wrap D = D + 360 * IZR k) /\
+                     (d2r (pa_da (pa_w a1 a2))) (d2r d1) (d2r d2)))) /\
+  (forall a1 a2, 0 <= a1 < 360 -> 0 <= a2 < 360 ->
+    pa_da (pa_w a1 a2) = pa_w a1 a2 /\ -180 <= pa_w a1 a2 <= 180) /\
+  (forall a1 a2, exists k : Z, pa_da (pa_w a1 a2) = (a1 - a2) + 360 * IZR k) /\
   (forall A1 D1 A2 D2,
-    pa_x (d2r (red360 (D1 + - D2))) (d2r (red360 (D1 + D2))) (d2r (pa_wrap (red360 (A1 + - A2))))
+    pa_x (d2r (red360 (D1 + - D2))) (d2r (red360 (D1 + D2))) (d2r (pa_da (pa_w A1 A2)))
          (d2r D1) (d2r D2)
     = sin (d2r D1) * cos (d2r D2) - sin (d2r D2) * cos (d2r D1) * cos (d2r A1 - d2r A2)) /\
   (forall a1 d1 a2 d2, 0 < cos (d2r d1) ->
@@ -217,7 +221,7 @@ Theorem C05_position_angle :
     f_relative_position_angle Rops (ang a2) (ang d1) (ang a1) (ang d2) = ang (- p)).
 Proof.
   split; [exact relpa_closed |]. split; [reflexivity |].
-  split; [intros D H; split; [now apply pa_wrap_range | apply pa_wrap_cases] |].
+  split; [exact pa_da_range |]. split; [exact pa_da_cases |].
   exact (conj pa_x_value (conj relpa_quotient_form relpa_antisym)).
 Qed.
 
